@@ -399,6 +399,40 @@ def check(ctx, run):
                 if got != want:
                     run.ob("R4", "getLeakFrom(record %d) on %d records, pattern %s" % (start, n, list(pat)), gl.site, False, witness={"folded": got, "expected": want})
         run.ob("R4", "getLeakFrom folded for every start record on all lists of %d records" % n, gl.site, True, witness="see violations, if any")
+        # the walk that releases an allocation stage: the records of exactly that stage, wherever they stand (stages go down and up
+        # again, so a record of a lower stage may stand in front of one of the asked stage)
+        gfs, gns = prog.fn(LST + "::getFirstLeakForAllocationStage"), prog.fn(LST + "::getNextLeakForAllocationStage")
+        run.analysed(gfs)
+        run.analysed(gns)
+        bad, ncase = None, 0
+        for stages in itertools.product((0, 1, 2), repeat=n):
+            ncase += 1
+            visited, cur, steps = [], None, 0
+            try:
+                while steps <= n + 1:
+                    f_ = gfs if cur is None else gns
+                    env = list_env(n, {"allocation_stage_": list(stages)})
+                    env.update({f_.params[-1]["name"]: 1})
+                    if cur is not None:
+                        env[f_.params[0]["name"]] = cur
+                    ev = Evaluator(prog, f_, env=env)
+                    ev.heap_mode = True
+                    ev.inline = LINL
+                    ev.run_blocks(f_.entry, max_steps=800)
+                    cur = getattr(ev, "ret", None)
+                    if isinstance(cur, tuple):
+                        raise Unknown(str(cur))
+                    if not cur:
+                        break
+                    visited.append(cur)
+                    steps += 1
+            except Unknown as u:
+                visited = "unknown: %s" % u
+            want = [k for k in range(1, n + 1) if stages[k - 1] == 1]
+            if visited != want and bad is None:
+                bad = "records with stages %s, stage 1 asked: the walk visits %s, the records of that stage are %s" % (list(stages), visited, want)
+        run.ob("R4", "stage walk (getFirstLeakForAllocationStage / getNextLeakForAllocationStage) folded on %d lists of %d records with stages in {0,1,2}: visits exactly the records of the asked stage, in list order" % (ncase, n), gfs.site, bad is None,
+               witness=bad or "%d lists" % ncase, what="" if bad is None else "releasing an allocation stage misses blocks of that stage (or touches others): " + bad)
         mem = [1000 + 8 * k for k in range(1, n + 1)]
         for target in mem + [9999]:
             for f, removes in ((rn, True), (rt, False)):
@@ -463,6 +497,13 @@ def check(ctx, run):
                     why = "a failed realloc stores a record or returns a block (%s -> %s)" % (kinds, r)
                 run.ob("R5", "reallocMemory folded [%s record, block %s, realloc answers %s]: the old record is removed before the new one is stored" % ("separate" if sep else "inline", "known" if known else "unknown", newmem), rm.site, not why,
                        witness={"returns": r, "calls": kinds}, what=why)
+            # a request the detector refuses itself (size + bookkeeping would overflow) leaves the set of outstanding blocks as it was
+            for size in ((1 << 64) - 1, (1 << 64) - 9):
+                r, log, ev = detector_fold(prog, rm, pv(rm, 9000, 50000, size, 111000, 77, sep), {"remove": 6000, "realloc": 70000})
+                kinds = [k for k, a_ in log]
+                ok = r == 0 and "remove" not in kinds and "add" not in kinds
+                run.ob("R5", "reallocMemory folded [%s record, known block, size %d whose bookkeeping overflows]: refused with NULL and the block's record stays" % ("separate" if sep else "inline", size), rm.site, ok,
+                       witness={"returns": r, "calls": kinds}, what="" if ok else "the refused request returns %s after %s: the caller still owns the block, but it is no longer among the outstanding ones" % (r, kinds))
     except Unknown as u:
         run.broke("C04.R5: allocMemory/reallocMemory cannot be folded: %s" % u)
 
